@@ -633,4 +633,5 @@ func main() {
 	writeIfChanged(filepath.Join(outdir, "GoAstDearmor.v"), genGoAst(pkgs, astDearmor))
 	writeIfChanged(filepath.Join(outdir, "GoAstFrame.v"), genGoAst(pkgs, astFrame))
 	writeIfChanged(filepath.Join(outdir, "GoAstOpen.v"), genGoAst(pkgs, astOpen))
+	writeIfChanged(filepath.Join(outdir, "GoAstEntry.v"), genGoAst(pkgs, astEntry))
 }
